@@ -111,6 +111,7 @@ type btreeNode struct {
 func (n *btreeNode) markDirty(lsn uint64) {
 	n.lastLSN = lsn
 	n.dirty = true
+	verifDirty(n)
 }
 
 func (n *btreeNode) markClean() {
@@ -219,6 +220,9 @@ func (n *btreeNode) findCellOffsetByKey(key uint32) (offset int, found bool) {
 }
 
 func (n *btreeNode) isFull() bool {
+	if full, ok := verifIsFull(n); ok {
+		return full
+	}
 	if n.isLeaf {
 		return len(n.offsets) >= maxLeafNodeCells
 	}
@@ -604,6 +608,7 @@ func (m *memoryStore) incrLSN() {
 }
 
 func newFileStore(path string, autoFlushCache bool) (*fileStore, error) {
+	autoFlushCache = verifAutoFlush(autoFlushCache)
 	file, err := os.OpenFile(path, os.O_CREATE|os.O_RDWR, 0644)
 	if err != nil {
 		return nil, err
@@ -630,6 +635,7 @@ func newFileStore(path string, autoFlushCache bool) (*fileStore, error) {
 			}
 		}()
 	}
+	verifStoreOpened(fs)
 	return fs, nil
 }
 
@@ -649,8 +655,10 @@ type fileStore struct {
 
 func (f *fileStore) lockShared() {
 	f.mtx.RLock()
+	verifEv(f, "S+")
 }
 func (f *fileStore) unlockShared() {
+	verifEv(f, "S-")
 	f.mtx.RUnlock()
 }
 
@@ -662,6 +670,7 @@ func (f *fileStore) unlockExclusive() {
 }
 
 func (f *fileStore) close() error {
+	verifStoreClosed(f)
 	defer f.file.Close()
 	if f.autoFlushCache {
 		f.ticker.Stop()
@@ -697,6 +706,7 @@ func (f *fileStore) update(node *btreeNode) error {
 	if err != nil {
 		return err
 	}
+	verifIO(f, "page", int64(node.getFileOffset()), buf.Bytes())
 	if _, err := f.file.WriteAt(buf.Bytes(), int64(node.getFileOffset())); err != nil {
 		return err
 	}
@@ -767,6 +777,7 @@ func (f *fileStore) save() error {
 	if err := binary.Write(writer, binary.LittleEndian, f._nextLSN); err != nil {
 		return err
 	}
+	verifIO(f, "hdr", 0, writer.Bytes())
 	if _, err := f.file.WriteAt(writer.Bytes(), 0); err != nil {
 		return err
 	}
@@ -791,8 +802,11 @@ func (f *fileStore) open() error {
 }
 
 func (f *fileStore) flushPages() error {
+	verifEv(f, "X?")
 	f.lockExclusive()
+	verifEv(f, "X+")
 	defer f.unlockExclusive()
+	defer verifEv(f, "X-")
 	for _, v := range f.cache.cache {
 		node := v.Value.(*cacheEntry).val
 		if !node.isDirty() {
